@@ -1234,7 +1234,24 @@ fn synthetic_llvm_cov_stream(rep: &mut Report, rng: &mut Rng, reqs: &mut Vec<Str
                 count_line_shapes(rep, "synthetic_llvm_cov", &ours, &theirs, &fd);
                 if let Some(d) = diff_gcov(&ours, &theirs) {
                     let finding = classify(&ours, &theirs, &fd);
-                    rep.fail("oracle", finding, format!("Gcno::compute differs from llvm-cov gcov on generated notes: {}", d), case);
+                    if finding == Some("C08-irreducible-line-cycles") {
+                        // Generated notes are not LLVM-produced: a difference that is confined to
+                        // lines with a two-entry loop (where the circuit decomposition is not
+                        // unique and the two tools use different searches) is measured, not a
+                        // violation. The same difference on a compiled program IS reported (named
+                        // finding C08-irreducible-line-cycles in the program stream).
+                        rep.count("synthetic_llvm_cov.differs_on_irreducible_line_only");
+                        if !rep.notes.iter().any(|n| n.starts_with("irreducible-line sample")) {
+                            rep.notes.push(format!(
+                                "irreducible-line sample (generated notes, grcov != llvm-cov): {} ; gcno={} gcda={}",
+                                d,
+                                hex(&gcno),
+                                hex(&gbytes)
+                            ));
+                        }
+                    } else {
+                        rep.fail("oracle", finding, format!("Gcno::compute differs from llvm-cov gcov on generated notes: {}", d), case);
+                    }
                 }
             }
             Err(e) => rep.fail("oracle", None, format!("Gcno::compute fails on generated notes: {}", e), case),
